@@ -193,12 +193,16 @@ R4_EXCEPTIONS = {
 
 
 def run(ctx):
+    ctx.guard("C16.K17", "constructor fidelity", lambda: __import__("ctor").check_for(ctx, "C16", 72))
     F = ctx.facts
     state = {}
     ctx.guard("C16.R1", "template trees", lambda: r1_r2_r3(ctx, state))
     ctx.guard("C16.R4", "format guards", lambda: r4_format_guards(ctx))
     ctx.guard("C16.R5", "guard conflicts", lambda: r5_guards(ctx))
     ctx.guard("C16.R6", "population size through recombination", lambda: r6_population_size(ctx))
+    ctx.guard("C16.R8", "own state is read under the key it was inserted with", lambda: r8_state_keys(ctx))
+    ctx.guard("C16.R7", "components complete on valid input", lambda: r7_components_complete(ctx))
+    ctx.guard("C16.R9", "equal molecules", lambda: __import__("c20").equal_molecules(ctx, "C16.R9"))
 
 
 def analyse_templates(ctx):
@@ -352,3 +356,107 @@ def r6_population_size(ctx):
     individuals its contract states (same rule body as C13.R5, owned here for the size clause of C16)"""
     import c13
     c13.r5_recombination_driver(ctx, rule="C16.R6")
+
+
+# ------------------------------------------------------------------ R8: per-instance state keys
+
+ACCESSORS = ("borrow", "borrow_mut", "try_borrow", "try_borrow_mut", "borrow_value", "borrow_value_mut", "try_borrow_value", "try_borrow_value_mut",
+             "get_value", "try_get_value", "set_value", "get", "get_mut", "try_get", "try_get_mut", "remove", "try_remove", "take", "entry", "holding")
+
+
+def outer(ty):
+    return ty.split("<", 1)[0]
+
+
+def r8_state_keys(ctx):
+    """A component keeps its run-time parameters in state types keyed by its own type (`MutationRate<Self>`,
+    `InertiaWeight<Self>`): every state type mentioning the component's own type that a method of the component reads
+    must be spelled with the component's own instantiation - exactly as its init inserts it - and not with another
+    instantiation of the same generic type (e.g. the default identifier), which this instance never inserted."""
+    F = ctx.facts
+    n = 0
+    impls = {}
+    for f in F.all_fns:
+        if f.impl_trait in ("mahf::components::Component", "mahf::conditions::Condition") and f.impl_self_adt and f.name in ("init", "require", "execute", "evaluate"):
+            impls.setdefault((f.impl_self_adt, f.impl_self_ty, f.impl_trait), []).append(f)
+    for (adt, self_ty, tr), fns in sorted(impls.items()):
+        bodies = []
+        for f in fns:
+            bodies += F.with_closures(f)
+        for g in bodies:
+            for bb, t in g.body.calls():
+                ff = t["f"]
+                ga = (ff.get("gargs") or [])
+                if ff.get("name") not in ACCESSORS + ("insert", "insert_default", "contains", "has") or not (ff.get("key", "").startswith("mahf::state::")):
+                    continue
+                for ty in ga[:1]:
+                    if (adt + "<") not in ty and not ty.endswith(adt + ">") and (adt + ">") not in ty and (adt + ",") not in ty:
+                        continue
+                    n += 1
+                    # every mention of the component's ADT inside the state type must be the impl's own instantiation
+                    import re
+                    mentions = re.findall(re.escape(adt) + r"(?:<[^<>]*(?:<[^<>]*>[^<>]*)*>)?", ty)
+                    wrong = [m for m in mentions if m != self_ty]
+                    ctx.check(not wrong, "C16.R8", g.key, "own-state-key:" + outer(ty).split("::")[-1],
+                              "%s accesses %s: this names the instantiation %s, not the component's own type %s, so the state this instance inserted is never the one it reads"
+                              % (ff.get("name"), ty, wrong[0] if wrong else "", self_ty), loc=g.loc(t.get("line")))
+    ctx.count("own_state_accesses", n)
+    ctx.floor("C16.R8", "accesses to state keyed by the component's own type", n, 22)
+
+
+# ------------------------------------------------------------------ R7: the components the templates are made of complete
+
+class CompletionProxy:
+    """Borrows the scenario tables of the operator rules (C11-C14, C17-C20) and keeps only what matters for C16: a
+    component that panics, diverges or returns an error on one of the valid scenarios.  Semantic deviations that still
+    complete belong to the operator's own property and are dropped here."""
+    import re as _re
+    RX = _re.compile(r"panic|diverge|does not (return|complete)|Result::Err|could not be evaluated")
+
+    def __init__(self, ctx):
+        self._c = ctx
+        self.facts = ctx.facts
+        self.tier = ctx.tier
+        self.kept = 0
+        self.seen = 0
+
+    def check(self, cond, rule, item, instance, msg, detail="", loc=None, kind="rule-violated"):
+        self.seen += 1
+        if cond:
+            return
+        self.violation(rule, item, instance, msg, kind=kind, loc=loc)
+
+    def ok(self, *a, **k):
+        self.seen += 1
+
+    def violation(self, rule, item, instance, msg, kind="rule-violated", loc=None):
+        if kind != "rule-violated" or not self.RX.search(msg):
+            return
+        self.kept += 1
+        self._c.violation("C16.R7", item, "completes:" + instance, "(scenario table of %s) %s" % (rule, msg), loc=loc)
+
+    def floor(self, *a, **k):
+        pass
+
+    def count(self, *a, **k):
+        pass
+
+    def guard(self, rule, what, fn):
+        try:
+            fn()
+        except Exception as e:       # the owning property reports evaluation problems; C16 only borrows verdicts
+            self._c.violation("C16.R7", rule, "borrowed-table", "the scenario table of %s could not be evaluated: %s" % (rule, e), kind="undecided-shape")
+
+
+def r7_components_complete(ctx):
+    import c11, c12, c13, c14, c17, c18, c19, c20
+    px = CompletionProxy(ctx)
+    tables = [("C11", c11.r3_operators), ("C11", c11.r5_sampling_operators), ("C12", c12.r2_operators), ("C13", c13.r7_mutation_components),
+              ("C13", c13.r8_recombination_operators), ("C14", c14.r1_constrain), ("C14", c14.r4_initialization), ("C17", c17.r1_acceptance),
+              ("C18", c18.r1_velocity_update), ("C18", c18.r3_best_memories), ("C19", c19.r1_generation), ("C19", c19.r2_updates), ("C20", c20.r1_updates)]
+    for owner, fn in tables:
+        px.guard(owner + ":" + fn.__name__, "", lambda fn=fn: fn(px))
+    ctx.count("borrowed_scenario_verdicts", px.seen)
+    ctx.floor("C16.R7", "verdicts borrowed from the operator scenario tables", px.seen, 40)
+    if px.kept == 0:
+        ctx.ok("C16.R7", "operator scenario tables", "no panic / error on valid scenarios", "%d verdicts from %d tables" % (px.seen, len(tables)))
